@@ -87,29 +87,34 @@ def reverse_iter_lines(file_obj, blocksize=DEFAULT_BLOCKSIZE, preseek=True, enco
     except (AttributeError, io.UnsupportedOperation):
         pass
 
-    empty_bytes, newline_bytes, empty_text = b'', b'\n', ''
+    empty_bytes, newline_bytes, cr_bytes = b'', b'\n', b'\r'
+
+    def _finish(line):
+        # complete lines get here: drop the '\r' of a '\r\n' line
+        # break (the '\n' is gone already), then decode if needed
+        if line[-1:] == cr_bytes:
+            line = line[:-1]
+        return line.decode(encoding) if encoding else line
 
     if preseek:
         file_obj.seek(0, os.SEEK_END)
     buff = empty_bytes
-    cur_pos = file_obj.tell()
+    cur_pos = end_pos = file_obj.tell()
     while 0 < cur_pos:
         read_size = min(blocksize, cur_pos)
         cur_pos -= read_size
         file_obj.seek(cur_pos, os.SEEK_SET)
         cur = file_obj.read(read_size)
         buff = cur + buff
-        lines = buff.splitlines()
-
-        if len(lines) < 2 or lines[0] == empty_bytes:
-            continue
-        if buff[-1:] == newline_bytes:
-            yield empty_text if encoding else empty_bytes
+        lines = buff.split(newline_bytes)
+        # everything after the first newline is made of complete lines;
+        # the first fragment may continue in the block before this one
         for line in lines[:0:-1]:
-            yield line.decode(encoding) if encoding else line
+            yield _finish(line)
         buff = lines[0]
-    if buff:
-        yield buff.decode(encoding) if encoding else buff
+    if end_pos > 0:
+        # what remains is the first line, maybe an empty one
+        yield _finish(buff)
 
 
 
